@@ -101,10 +101,25 @@ Fixpoint build_ok (st : list adapter) (bb : rect) : bool :=
   | ad :: rest => build_ok rest bb && new_ok ad (bbox_stack rest bb)
   end.
 
+(* Geometry of the call an adapter issues on its parent: areas and pixel positions as in lower1c, colour streams
+   dropped (the site predicates never look at colours).  Proofs/TargetOk.v: lower1g = strip o lower1c, and
+   stack_ok below equals the same recursion over the real lowered calls (stack_ok_real).  Evaluating this form
+   does not run the Cropped iterator over the whole area. *)
+Definition strip (c : call) : call :=
+  match c with FillContiguous a _ => FillContiguous a (Fin []) | _ => c end.
+
+Definition lower1g (ad : adapter) (pbb : rect) (c : call) : call :=
+  match ad, c with
+  | Clip a, FillContiguous area _ =>
+      let inter := intersection (intersection a pbb) area in
+      if rect_eqb inter area then FillContiguous area (Fin []) else FillContiguous inter (Fin [])
+  | _, _ => strip (lower1c ad pbb (strip c))
+  end.
+
 Fixpoint stack_ok (st : list adapter) (bb : rect) (c : call) : bool :=
   match st with
   | [] => true
   | ad :: rest =>
       let pbb := bbox_stack rest bb in
-      lower1c_ok ad pbb c && stack_ok rest bb (lower1c ad pbb c)
+      lower1c_ok ad pbb c && stack_ok rest bb (lower1g ad pbb c)
   end.
